@@ -255,12 +255,12 @@ func hookPick(point string, n int) int {
 	if s == nil {
 		return -1
 	}
-	t := s.lookup()
-	if t == nil {
-		return -1
+	id := "driver"
+	if t := s.lookup(); t != nil {
+		id = t.ID
 	}
 	v := s.T.Choose("pick:"+point, n)
-	s.Logf("  pick %s %s -> %d/%d", t.ID, point, v, n)
+	s.Logf("  pick %s %s -> %d/%d", id, point, v, n)
 	return v
 }
 
